@@ -78,6 +78,20 @@ pub fn run(tier: Tier) {
             }
         }
     }
+    // a second alphabet: characters that Unicode calls white space (trimmed by str::trim_end) in 1, 2 and 3 bytes
+    let alphabet2 = ['a', '\n', ' ', '\u{a0}', '\u{3000}', '\u{85}', '\t'];
+    let texts2 = strings(&alphabet2, len);
+    for t in &texts2 {
+        for pos in 0..=t.len() {
+            if !t.is_char_boundary(pos) {
+                continue;
+            }
+            pairs += 1;
+            for file in [None, Some("src/g.ebnf")] {
+                check_one(&mut st, t, pos, file, false);
+            }
+        }
+    }
     // long lines
     let longs: Vec<usize> = if tier == Tier::Quick { vec![200] } else { vec![200, 1000, 5000] };
     for n in longs {
@@ -110,5 +124,5 @@ pub fn run(tier: Tier) {
             }
         }
     }
-    st.finish(json!({"texts": texts.len(), "pairs": pairs, "alphabet": format!("{:?}", alphabet), "max_len": len}));
+    st.finish(json!({"texts": texts.len() + texts2.len(), "pairs": pairs, "alphabet": format!("{:?}", alphabet), "second_alphabet": format!("{:?}", alphabet2), "max_len": len}));
 }
